@@ -18,25 +18,78 @@ MODES = {
     "lfq": (["lfq_memb", "lfq_mb"], [[]]),
     "defer": (["defer_conc_memb", "defer_conc_mb"], [[]]),
     # proof-only parts (the futex wait / wake families; their events are inside calls replayed by other modes)
-    "futex-gp": ([], [[]]), "futex-callrcu": ([], [[]]), "futex-defer": ([], [[]]), "futex-wq": ([], [[]]),
+    "futex-gp": ([], [[]]), "futex-callrcu": ([], [[]]), "futex-defer": ([], [[]]), "futex-wq": ([], [[]]), "poll": ([], [[]]),
+    "lfht": (["lfht_conc"], [[]]),
 }
 
-# refinement theorems per mode: filled from the builders' reports; (modules, theorem names)
-THEOREMS = {
-    "gp-memb": (["UrcuVerif.Props.SrcRead", "UrcuVerif.Props.SrcSync"], ["UrcuVerif.Props.SrcSync.urcu_common_reader_state_refines", "UrcuVerif.Props.SrcSync.memb_smp_mb_master_refines", "UrcuVerif.Props.SrcSync.memb_wait_gp_refines", "UrcuVerif.Props.SrcSync.memb_wait_for_readers_refines", "UrcuVerif.Props.SrcSync.memb_synchronize_rcu_refines", "UrcuVerif.Props.SrcSync.memb_grace_period_refines", "UrcuVerif.Props.SrcSync.first_disc", "UrcuVerif.Props.SrcSync.succOf_mem", "UrcuVerif.Props.SrcSync.succOf_disc", "UrcuVerif.Props.SrcSync.proj_enabled", "UrcuVerif.Props.SrcSync.proj_step", "UrcuVerif.Props.SrcSync.proj_frame", "UrcuVerif.Props.SrcRead._urcu_memb_read_lock_refines", "UrcuVerif.Props.SrcRead._urcu_memb_read_unlock_refines", "UrcuVerif.Props.SrcRead._urcu_memb_read_ongoing_refines", "UrcuVerif.Props.SrcRead._urcu_memb_read_lock_in_handler_refines", "UrcuVerif.Props.SrcRead._urcu_memb_read_unlock_in_handler_refines", "UrcuVerif.Props.SrcRead.urcu_common_wake_up_gp_shape", "UrcuVerif.Props.SrcRead.flip_proj_step", "UrcuVerif.Props.SrcRead.flip_proj_enabled", "UrcuVerif.Props.SrcRead.flip_proj_frame", "UrcuVerif.Props.SrcRead.handshake_proj_step", "UrcuVerif.Props.SrcRead.handshake_proj_enabled", "UrcuVerif.Props.SrcRead.handshake_proj_frame"]),
-    "gp-mb": (["UrcuVerif.Props.SrcRead", "UrcuVerif.Props.SrcSync"], ["UrcuVerif.Props.SrcSync.urcu_common_reader_state_refines", "UrcuVerif.Props.SrcSync.mb_smp_mb_master_refines", "UrcuVerif.Props.SrcSync.mb_wait_gp_refines", "UrcuVerif.Props.SrcSync.mb_wait_for_readers_refines", "UrcuVerif.Props.SrcSync.mb_synchronize_rcu_refines", "UrcuVerif.Props.SrcSync.first_disc", "UrcuVerif.Props.SrcSync.succOf_mem", "UrcuVerif.Props.SrcSync.succOf_disc", "UrcuVerif.Props.SrcSync.proj_enabled", "UrcuVerif.Props.SrcSync.proj_step", "UrcuVerif.Props.SrcSync.proj_frame", "UrcuVerif.Props.SrcRead._urcu_mb_read_lock_refines", "UrcuVerif.Props.SrcRead._urcu_mb_read_unlock_refines", "UrcuVerif.Props.SrcRead._urcu_mb_read_ongoing_refines", "UrcuVerif.Props.SrcRead._urcu_mb_read_lock_in_handler_refines", "UrcuVerif.Props.SrcRead._urcu_mb_read_unlock_in_handler_refines", "UrcuVerif.Props.SrcRead.urcu_common_wake_up_gp_shape", "UrcuVerif.Props.SrcRead.flip_proj_step", "UrcuVerif.Props.SrcRead.flip_proj_enabled", "UrcuVerif.Props.SrcRead.flip_proj_frame", "UrcuVerif.Props.SrcRead.handshake_proj_step", "UrcuVerif.Props.SrcRead.handshake_proj_enabled", "UrcuVerif.Props.SrcRead.handshake_proj_frame"]),
-    "gp-bp": (["UrcuVerif.Props.SrcRead"], ["UrcuVerif.Props.SrcRead._urcu_bp_read_lock_refines", "UrcuVerif.Props.SrcRead._urcu_bp_read_unlock_refines", "UrcuVerif.Props.SrcRead._urcu_bp_read_ongoing_refines", "UrcuVerif.Props.SrcRead._urcu_bp_read_lock_unregistered", "UrcuVerif.Props.SrcRead._urcu_bp_read_lock_in_handler_refines", "UrcuVerif.Props.SrcRead._urcu_bp_read_unlock_in_handler_refines", "UrcuVerif.Props.SrcRead.urcu_common_wake_up_gp_shape", "UrcuVerif.Props.SrcRead.flip_proj_step", "UrcuVerif.Props.SrcRead.flip_proj_enabled", "UrcuVerif.Props.SrcRead.flip_proj_frame", "UrcuVerif.Props.SrcRead.handshake_proj_step", "UrcuVerif.Props.SrcRead.handshake_proj_enabled", "UrcuVerif.Props.SrcRead.handshake_proj_frame"]),
-    "futex-gp": (["UrcuVerif.Props.SrcFutex"], ["UrcuVerif.Props.SrcFutex.memb_wait_gp_refines", "UrcuVerif.Props.SrcFutex.mb_wait_gp_refines", "UrcuVerif.Props.SrcFutex.qsbr_wait_gp_refines", "UrcuVerif.Props.SrcFutex.urcu_common_wake_up_gp_refines", "UrcuVerif.Props.SrcFutex.urcu_qsbr_wake_up_gp_refines", "UrcuVerif.Props.SrcFutex.hs_waiter_proj_step", "UrcuVerif.Props.SrcFutex.hs_waiter_proj_enabled", "UrcuVerif.Props.SrcFutex.hs_waiter_proj_frame", "UrcuVerif.Props.SrcFutex.hs_waiter_env_wake", "UrcuVerif.Props.SrcFutex.qs_waiter_proj_step", "UrcuVerif.Props.SrcFutex.qs_waiter_proj_enabled", "UrcuVerif.Props.SrcFutex.qs_waiter_proj_frame", "UrcuVerif.Props.SrcFutex.qs_waiter_env_wake", "UrcuVerif.Props.SrcFutex.qs_waker_proj_step", "UrcuVerif.Props.SrcFutex.qs_waker_proj_enabled", "UrcuVerif.Props.SrcFutex.qs_waker_proj_frame"]),
-    "futex-callrcu": (["UrcuVerif.Props.SrcFutex"], ["UrcuVerif.Props.SrcFutex.call_rcu_wait_refines", "UrcuVerif.Props.SrcFutex.call_rcu_wake_up_refines", "UrcuVerif.Props.SrcFutex.wake_call_rcu_thread_refines", "UrcuVerif.Props.SrcFutex.call_rcu_completion_wait_refines", "UrcuVerif.Props.SrcFutex.call_rcu_completion_wake_up_refines", "UrcuVerif.Props.SrcFutex.cr_waiter_proj_step", "UrcuVerif.Props.SrcFutex.cr_waiter_proj_enabled", "UrcuVerif.Props.SrcFutex.cr_waiter_proj_frame", "UrcuVerif.Props.SrcFutex.cr_waiter_env_wake", "UrcuVerif.Props.SrcFutex.cr_waker_proj_step", "UrcuVerif.Props.SrcFutex.cr_waker_proj_enabled", "UrcuVerif.Props.SrcFutex.cr_waker_proj_frame"]),
-    "futex-defer": (["UrcuVerif.Props.SrcFutex"], ["UrcuVerif.Props.SrcFutex.wake_up_defer_refines", "UrcuVerif.Props.SrcFutex.df_waiter_proj_step", "UrcuVerif.Props.SrcFutex.df_waiter_proj_enabled", "UrcuVerif.Props.SrcFutex.df_waiter_proj_frame", "UrcuVerif.Props.SrcFutex.df_waiter_env_wake", "UrcuVerif.Props.SrcFutex.df_waker_proj_step", "UrcuVerif.Props.SrcFutex.df_waker_proj_enabled", "UrcuVerif.Props.SrcFutex.df_waker_proj_frame"]),
-    "futex-wq": (["UrcuVerif.Props.SrcFutex"], ["UrcuVerif.Props.SrcFutex.futex_wait_refines", "UrcuVerif.Props.SrcFutex.futex_wake_up_refines", "UrcuVerif.Props.SrcFutex.wake_worker_thread_refines"]),
-    "defer": (["UrcuVerif.Props.SrcDefer"], ["UrcuVerif.Props.SrcDefer._defer_rcu_refines", "UrcuVerif.Props.SrcDefer._defer_rcu_stores", "UrcuVerif.Props.SrcDefer._defer_rcu_blocked", "UrcuVerif.Props.SrcDefer.wake_up_defer_refines", "UrcuVerif.Props.SrcDefer.rcu_defer_barrier_queue_refines", "UrcuVerif.Props.SrcDefer.rcu_defer_barrier_queue_events", "UrcuVerif.Props.SrcDefer.defer_roundtrip_inv", "UrcuVerif.Props.SrcDefer.defer_roundtrip_encode", "UrcuVerif.Props.SrcDefer.defer_roundtrip_one", "UrcuVerif.Props.SrcDefer._defer_rcu_refines_local", "UrcuVerif.Props.SrcDefer.rcu_defer_barrier_queue_refines_local", "UrcuVerif.Props.SrcDefer.enc_ex", "UrcuVerif.Props.SrcDefer.owner_proj", "UrcuVerif.Props.SrcDefer.owner_enabled_iff", "UrcuVerif.Props.SrcDefer.owner_frame", "UrcuVerif.Props.SrcDefer.owner_frame_unlock", "UrcuVerif.Props.SrcDefer.runner_proj", "UrcuVerif.Props.SrcDefer.runner_enabled_iff", "UrcuVerif.Props.SrcDefer.runner_frame"]),
-    "wfs": (["UrcuVerif.Props.SrcStack"], ["UrcuVerif.Props.SrcStack.wfs_proj_step", "UrcuVerif.Props.SrcStack.wfs_lift_step", "UrcuVerif.Props.SrcStack.wfs_enabled_iff", "UrcuVerif.Props.SrcStack.wfs_proj_run", "UrcuVerif.Props.SrcStack.wfs_frame", "UrcuVerif.Props.SrcStack.wfs_frame_own", "UrcuVerif.Props.SrcStack.wfs_frame_iterNext", "UrcuVerif.Props.SrcStack._cds_wfs_push_refines", "UrcuVerif.Props.SrcStack.___cds_wfs_node_sync_next_refines", "UrcuVerif.Props.SrcStack.___cds_wfs_pop_refines", "UrcuVerif.Props.SrcStack.___cds_wfs_pop_refines_total", "UrcuVerif.Props.SrcStack.___cds_wfs_pop_all_refines", "UrcuVerif.Props.SrcStack._cds_wfs_empty_refines"]),
-    "lfs": (["UrcuVerif.Props.SrcStack"], ["UrcuVerif.Props.SrcStack.lfs_proj_step", "UrcuVerif.Props.SrcStack.lfs_lift_step", "UrcuVerif.Props.SrcStack.lfs_enabled_iff", "UrcuVerif.Props.SrcStack.lfs_proj_run", "UrcuVerif.Props.SrcStack.lfs_frame", "UrcuVerif.Props.SrcStack.lfs_frame_own", "UrcuVerif.Props.SrcStack.lfs_frame_iterNext", "UrcuVerif.Props.SrcStack._cds_lfs_push_refines", "UrcuVerif.Props.SrcStack.___cds_lfs_pop_refines", "UrcuVerif.Props.SrcStack.___cds_lfs_pop_all_refines", "UrcuVerif.Props.SrcStack._cds_lfs_empty_refines"]),
-    "wfcq": (["UrcuVerif.Props.SrcQueue"], ["UrcuVerif.Props.SrcQueue.wfcq_proj", "UrcuVerif.Props.SrcQueue.wfcq_enabled_iff", "UrcuVerif.Props.SrcQueue.wfcq_frame", "UrcuVerif.Props.SrcQueue.wfcq_frame_env", "UrcuVerif.Props.SrcQueue._cds_wfcq_enqueue_refines", "UrcuVerif.Props.SrcQueue.___cds_wfcq_append_refines", "UrcuVerif.Props.SrcQueue._cds_wfcq_empty_refines", "UrcuVerif.Props.SrcQueue.___cds_wfcq_node_sync_next_refines", "UrcuVerif.Props.SrcQueue.___cds_wfcq_busy_wait_silent", "UrcuVerif.Props.SrcQueue.___cds_wfcq_dequeue_with_state_refines", "UrcuVerif.Props.SrcQueue.___cds_wfcq_splice_refines", "UrcuVerif.Props.SrcQueue.___cds_wfcq_node_sync_next_refines'", "UrcuVerif.Props.SrcQueue._cds_wfcq_node_init_atomic_refines", "UrcuVerif.Props.SrcQueue.urcu_ref_get_safe_refines", "UrcuVerif.Props.SrcQueue.urcu_ref_get_safe_never_stores_at_LONG_MAX", "UrcuVerif.Props.SrcQueue.urcu_ref_get_safe_at_LONG_MAX", "UrcuVerif.Props.SrcQueue.urcu_ref_get_unless_zero_refines", "UrcuVerif.Props.SrcQueue.urcu_ref_get_unless_zero_never_stores_at_zero_or_LONG_MAX", "UrcuVerif.Props.SrcQueue.urcu_ref_put_refines"]),
-    "lfq": (["UrcuVerif.Props.SrcQueue"], ["UrcuVerif.Props.SrcQueue.lfq_proj", "UrcuVerif.Props.SrcQueue.lfq_enabled_iff", "UrcuVerif.Props.SrcQueue.lfq_frame", "UrcuVerif.Props.SrcQueue.lfq_frame_env", "UrcuVerif.Props.SrcQueue._cds_lfq_enqueue_rcu_refines", "UrcuVerif.Props.SrcQueue._cds_lfq_dequeue_rcu_refines_partial"]),
-    "gp-qsbr": (["UrcuVerif.Props.SrcRead"], ["UrcuVerif.Props.SrcRead._urcu_qsbr_quiescent_state_refines", "UrcuVerif.Props.SrcRead._urcu_qsbr_thread_offline_refines", "UrcuVerif.Props.SrcRead._urcu_qsbr_thread_online_refines", "UrcuVerif.Props.SrcRead._urcu_qsbr_read_ongoing_refines", "UrcuVerif.Props.SrcRead._urcu_qsbr_read_lock_refines", "UrcuVerif.Props.SrcRead._urcu_qsbr_read_unlock_refines", "UrcuVerif.Props.SrcRead.urcu_qsbr_wake_up_gp_refines", "UrcuVerif.Props.SrcRead.qsbr_proj_step", "UrcuVerif.Props.SrcRead.qsbr_proj_enabled", "UrcuVerif.Props.SrcRead.qsbr_proj_frame", "UrcuVerif.Props.SrcRead.qsbr_handshake_proj_step", "UrcuVerif.Props.SrcRead.qsbr_handshake_proj_enabled", "UrcuVerif.Props.SrcRead.qsbr_handshake_proj_frame"]),
+# refinement theorems per mode: (Props modules, selector on the theorem's short name); the names are read from the module
+# texts (`namespace` / `section` / `theorem` lines) so that what is audited is what the modules state
+def theorems_of(module):
+    path = os.path.join(vlib.LEAN, *module.split(".")) + ".lean"
+    out, ns, stack = [], [], []
+    try:
+        lines = open(path).read().split("\n")
+    except OSError:
+        return out
+    for ln in lines:
+        m = re.match(r"^(namespace|section|end)\b\s*(\S*)", ln)
+        if m:
+            kind, name = m.group(1), m.group(2)
+            if kind == "namespace":
+                stack.append(("ns", name))
+            elif kind == "section":
+                stack.append(("sec", name))
+            elif stack:
+                stack.pop()
+            continue
+        m = re.match(r"^(?:protected\s+|private\s+)?theorem\s+(\S+)", ln)
+        if m:
+            prefix = ".".join(n for k, n in stack if k == "ns" and n)
+            out.append((prefix + "." if prefix else "") + m.group(1))
+    return out
+
+
+def _sel(*subs):
+    return lambda n: any(x in n for x in subs)
+
+
+MODE_THEOREMS = {
+    "gp-memb": [("UrcuVerif.Props.SrcRead", lambda n: "_mb_" not in n and "_bp_" not in n and "qsbr" not in n),
+                ("UrcuVerif.Props.SrcSync", lambda n: "SrcSyncQsbr" not in n and ".mb_" not in n)],
+    "gp-mb": [("UrcuVerif.Props.SrcRead", lambda n: "_memb_" not in n and "_bp_" not in n and "qsbr" not in n),
+              ("UrcuVerif.Props.SrcSync", lambda n: "SrcSyncQsbr" not in n and ".memb_" not in n)],
+    "gp-bp": [("UrcuVerif.Props.SrcRead", lambda n: "_memb_" not in n and "_mb_" not in n and "qsbr" not in n)],
+    "gp-qsbr": [("UrcuVerif.Props.SrcRead", _sel("qsbr")), ("UrcuVerif.Props.SrcSync", _sel("SrcSyncQsbr"))],
+    "wfs": [("UrcuVerif.Props.SrcStack", lambda n: "lfs" not in n)],
+    "lfs": [("UrcuVerif.Props.SrcStack", _sel("lfs"))],
+    "wfcq": [("UrcuVerif.Props.SrcQueue", lambda n: "lfq" not in n)],
+    "lfq": [("UrcuVerif.Props.SrcQueue", _sel("lfq"))],
+    "defer": [("UrcuVerif.Props.SrcDefer", lambda n: True)],
+    "futex-gp": [("UrcuVerif.Props.SrcFutex", _sel("wait_gp", "wake_up_gp", "hs_", "qs_", "wait_node", "adaptative", "wait_add"))],
+    "futex-callrcu": [("UrcuVerif.Props.SrcFutex", _sel("call_rcu", "cr_", "completion")), ("UrcuVerif.Props.SrcCallRcu", lambda n: True)],
+    "futex-defer": [("UrcuVerif.Props.SrcFutex", _sel("defer", "df_"))],
+    "futex-wq": [("UrcuVerif.Props.SrcFutex", _sel(".futex_wait", ".futex_wake_up", "wake_worker_thread")), ("UrcuVerif.Props.SrcWq", lambda n: True)],
+    "poll": [("UrcuVerif.Props.SrcPoll", lambda n: True)],
+    "lfht": [("UrcuVerif.Props.SrcLfht", lambda n: True)],
 }
+
+
+# modules whose builders have reported and which are imported by lean/UrcuVerif.lean
+INTEGRATED = {"UrcuVerif.Props.SrcRead", "UrcuVerif.Props.SrcSync", "UrcuVerif.Props.SrcStack", "UrcuVerif.Props.SrcQueue",
+              "UrcuVerif.Props.SrcDefer", "UrcuVerif.Props.SrcFutex", "UrcuVerif.Props.SrcPoll", "UrcuVerif.Props.SrcWq"}
+
+
+def mode_theorems(mode):
+    mods, thms = [], []
+    for module, sel in MODE_THEOREMS.get(mode, []):
+        if module not in INTEGRATED:
+            continue
+        names = [n for n in theorems_of(module) if sel(n)]
+        if names:
+            mods.append(module)
+            thms += names
+    return mods, thms
+
 
 TRUSTED = [
     "source translator harness/gen/gen_src.py: a C-subset parser for the static-inline primitives; what it cannot express is an error, "
@@ -111,7 +164,7 @@ def part(chk, modes):
         return False
     mods, thms = [], []
     for m in modes:
-        mm, tt = THEOREMS.get(m, ([], []))
+        mm, tt = mode_theorems(m)
         mods += [x for x in mm if x not in mods]
         thms += [x for x in tt if x not in thms]
     th, ax, un = list(chk.cov.get("theorems", [])), dict(chk.cov.get("axioms", {})), list(chk.cov.get("unproved_full_statements", []))
